@@ -89,12 +89,13 @@ ANCHOR_DOCS = (
     "{&k a: 1, b: *k}",
     "{a: {b: &x 1}, c: [*x, &y 2, *y]}",
     "[[&x 1, *x], {a: *x}]",
+    "[{a: &x 1}, {b: 2}, {c: *x}, {a: *x}]",          # has_child(&x) passes an Array-of-Hashes through, element by element
 )
 ANCHOR_NAMES = ("x", "y", "b", "k")
 
 KEYWORDS = (
     (False, "has_child", "a"), (True, "has_child", "a"), (False, "has_child", "b"),
-    (True, "has_child", "zz"),
+    (True, "has_child", "zz"), (False, "has_child", "&x"), (True, "has_child", "&x"),
     (False, "max", "a"), (True, "max", "a"), (False, "min", "a"), (True, "min", "a"),
     (False, "max", ""), (True, "max", ""), (False, "min", ""), (True, "min", ""),
     (False, "unique", ""), (True, "unique", ""), (False, "unique", "a"), (True, "unique", "a"),
